@@ -11,3 +11,4 @@ import LyModel.Props.C07
 #print axioms LyModel.Props.C07.validate_idempotent_choice
 #print axioms LyModel.Props.C07.validate_idempotent_choice_fails
 #print axioms LyModel.Props.C07.validate_idempotent_choice_F188_fails
+#print axioms LyModel.Props.C07.np_cont_dflt_validate
